@@ -1,6 +1,8 @@
 (* Property C09 — parameterised and nested column types stay whole (lexer invariants the property rests on). *)
 From Coq Require Import String Ascii List ZArith NArith Bool Lia.
 From SDP Require Import Base PyStr Lexer.
+From SDP Require Import Actions.
+From SDP Require Parse Entity Table TableProofs.
 Import ListNotations.
 Open Scope string_scope.
 
@@ -27,3 +29,24 @@ Proof.
   apply Z.ltb_lt in Hl. rewrite Hl. destruct (0 <? i_gt i)%Z; reflexivity.
 Qed.
 Print Assumptions C09_open_and_close_is_LT.
+
+(* ---------- sized and two-word types under the CREATE TABLE fragment theorem ---------------------------------------------------------
+   For every column of every statement of the core fragment (Props/C01.v: any position, any neighbours, any options after it) the
+   reported type is the declared type word, or the two declared words joined by one blank, and the size is the declared (n) as an
+   integer or (p, s) as a pair of integers — nothing of the type leaks into the name, the options or a neighbouring column. *)
+Theorem C09_fragment_types_whole : forall norm c,
+  exists d, Table.col_dict norm c = PDict d /\
+    dict_get d "type" = Some (PStr (match Table.c_ty2 c with
+                                    | Some w => (Entity.nms norm (Table.c_ty1 c) ++ " " ++ Entity.nms norm w)%string
+                                    | None => Entity.nms norm (Table.c_ty1 c) end)) /\
+    dict_get d "size" = Some (match Table.c_size c with
+                              | None => PNone
+                              | Some (a, None) => Table.size_val a
+                              | Some (a, Some b) => PTuple [Table.size_val a; Table.size_val b] end) /\
+    dict_get d "name" = Some (PStr (Entity.nms norm (Table.c_name c))).
+Proof. intros norm c. eexists. split; [reflexivity|]. repeat split. Qed.
+Print Assumptions C09_fragment_types_whole.
+Theorem C09_fragment_statement : forall t norm silent, Table.wf norm t = true ->
+  Parse.parse_lexemes norm silent (Table.lexemes t) = Ok (Some (Table.denote norm t)).
+Proof. exact TableProofs.table_parse. Qed.
+Print Assumptions C09_fragment_statement.
